@@ -110,6 +110,10 @@ func main() {
 			fmt.Fprintln(os.Stderr, "replay:", err)
 			os.Exit(2)
 		}
+		if w.Case.Scenario == "cmdline" {
+			runCmdlineCase(r, w.Case.Seed)
+			r.Finish()
+		}
 		if w.Case.Scenario == "overlapping-rounds" {
 			runOverlappingRounds(r, w.Case.Seed)
 			r.Finish()
@@ -162,6 +166,9 @@ func main() {
 		}
 	}
 	r.FloorCount("leader_snapshot_streams_taken_under_writes", int64(r.Pick(6000, 120000)))
+	// black box: the real `regatta leader` / `regatta follower` command lines (cmdline.go)
+	runCmdline(r)
+	r.FloorCount("cmdline_follower_recoveries_by_snapshot", int64(r.Pick(1, 3)))
 	if rep := racelog.Scan(); rep != nil {
 		for sig, n := range rep.Regatta {
 			r.Note(fmt.Sprintf("race report with regatta frames (recorded, not deciding for C05): %s x%d", sig, n))
